@@ -13,6 +13,7 @@ From BS Require Import Run.D_C12.
 From BS Require Run.D_C05 Run.D_C14.
 From BS Require Import Run.D_C13.
 From BS Require Import Run.D_C07.
+From BS Require Import Run.D_C09.
 Import ListNotations.
 Open Scope Z_scope.
 
@@ -243,6 +244,7 @@ Definition cmd_history (args : list sexp) : sexp :=
 Definition disp_ext (code : Z) (args : list sexp) : sexp :=
   let nn := code / 1000 in let sub := code mod 1000 in
   match nn with
+  | 9 => disp_c09 sub args
   | 7 => disp_c07 sub args
   | 13 => BS.Run.D_C13.disp_c13 sub args
   | 5 => BS.Run.D_C05.disp_c05 sub args
